@@ -84,8 +84,23 @@ func c13BackgroundJobs(r *vlib.Run) {
 		return map[string]interface{}{"Name": n, "Enable": true, "AllowFrom": []string{"localhost", "127.0.0.1"}, "Files": file,
 			"Query": "from JOBS select count($line),max(foo) group by $hostname interval 1", "Outfile": filepath.Join(srvDir, n+".csv")}
 	}
+	// a scheduled job of the server (a mapreduce over six files of 400 KB each (about half a second of reading per file), started 2 s after the server): its reads
+	// are cat-limited reads like anybody's
+	{
+		var sb bytes.Buffer
+		for k := 0; sb.Len() < 3<<17; k++ {
+			sb.WriteString(line(k))
+		}
+		for k := 0; k < 6; k++ {
+			os.WriteFile(filepath.Join(realData, fmt.Sprintf("sched-%d.log", k)), sb.Bytes(), 0644)
+		}
+	}
+	sched := job("sched-a", filepath.Join(realData, "sched-*.log"))
+	sched["TimeRange"] = []int{0, 24}
+	schedOut := sched["Outfile"].(string)
 	spec := &vlib.ServerSpec{Name: name, Dir: srvDir, LogLevel: "error",
 		Server: map[string]interface{}{"MaxConnections": 50, "MaxConcurrentCats": 2, "MaxConcurrentTails": 1,
+			"Schedule":   []interface{}{sched},
 			"Continuous": []interface{}{job("follow-a", files[0]), job("follow-b", files[1])}},
 		Users: map[string][]string{"tester": {key.AuthKey}}}
 	srv, err := r.StartServer(spec)
@@ -114,6 +129,8 @@ func c13BackgroundJobs(r *vlib.Run) {
 		}
 	}()
 	maxOpen, samples, everOpen := 0, 0, map[string]bool{}
+	maxSched, schedSeen := 0, map[string]bool{}
+	var worstSched []string
 	var worst []string
 	var client *ssh.Client
 	deadline := time.Now().Add(9 * time.Second)
@@ -126,12 +143,19 @@ func c13BackgroundJobs(r *vlib.Run) {
 			}
 		}
 		open := distinctStrings(vlib.OpenFilesUnder(srv.D.Pid(), realData))
-		n := 0
+		n, ns := 0, 0
 		for _, f := range open {
 			if strings.Contains(f, "/tail-") {
 				n++
 				everOpen[filepath.Base(f)] = true
 			}
+			if strings.Contains(f, "/sched-") {
+				ns++
+				schedSeen[filepath.Base(f)] = true
+			}
+		}
+		if ns > maxSched {
+			maxSched, worstSched = ns, open
 		}
 		if n > maxOpen {
 			maxOpen, worst = n, open
@@ -147,6 +171,15 @@ func c13BackgroundJobs(r *vlib.Run) {
 	r.Eval("background-jobs")
 	r.Count("background_job_samples", samples)
 	r.Max("background_job_files_open_at_once_max", maxOpen)
+	r.Max("scheduled_job_files_open_at_once_max", maxSched)
+	r.Count("scheduled_job_files_seen_open", len(schedSeen))
+	if _, err := os.Stat(schedOut); err == nil {
+		r.Count("scheduled_job_results_written", 1)
+	}
+	if maxSched > 2 {
+		r.Violation("more-files-read-than-the-limit", map[string]interface{}{"scenario": "scheduled mapreduce job of the server itself over six files, MaxConcurrentCats=2",
+			"files_open_at_once": maxSched, "open_files": worstSched})
+	}
 	if len(everOpen) == 0 {
 		r.Inconclusive("background-jobs-never-opened-a-file")
 		return
